@@ -9,7 +9,7 @@ from pv import gen, specs
 from pv.cmp import close, maxdiff, to_np
 from pv.engine import Reject, Result, Viol
 from pv.props import c29_sampling_born as c29
-from pv.props.c28_channels_mixed import ONE_PARAM, _standard_order, build_op, channel
+from pv.props.c28_channels_mixed import ONE_PARAM, _sqrt_eps_endpoint, _standard_order, build_op, channel
 from pv.ref import kraus as kr
 from pv.ref import sim
 from pv.ref import stattest as stt
@@ -25,7 +25,7 @@ RULE = (
     "shots= override inside an analytic workflow; devices default.qubit and default.mixed via qp.snapshots(QNode) (wires none / same / "
     "permuted / idle extras) and via the tape transform + qp.execute (explicit device wires). Oracle: key set = documented tags "
     "(running index over all snapshots for untagged ones) + 'execution_results'; value j = pv.ref.sim / pv.ref.kraus measurement of "
-    "the operations before snapshot j (1e-8); duplicate tags: the stored value(s) must be snapshots carrying that tag (list in order "
+    "the operations before snapshot j (1e-8, +2e-7 per damping channel at gamma=1 before it, as in C28); duplicate tags: the stored value(s) must be snapshots carrying that tag (list in order "
     "or a single one); execution_results = reference results of the circuit without snapshots (analytic 1e-8; shots: C29 statistical "
     "test, p<1e-9 twice). Non-trivial: >= 2 snapshots separated by a gate that changes the snapshot value."
 )
@@ -33,6 +33,9 @@ ASSUMPTIONS = [
     "Behaviour for duplicate tags is not documented (default.qubit collects a list, default.mixed keeps the last): any of the two is accepted.",
     "Device without wires: snapshots cover the operator wires only (measurement-only wires are added after the last operation).",
     "Tape-splitting path is only compared with explicit device wires (the docs say each split tape only sees the wires used so far).",
+    "PennyLane's documented constant _SQRT_STABILITY_EPS=1e-14 under the square roots of the damping channels leaves 1e-7 of coherence at "
+    "gamma = 1 exactly (AmplitudeDamping/PhaseDamping/GeneralizedAmplitudeDamping); as in C28 this is float tolerance (2e-7 per such "
+    "channel in the compared prefix), not a snapshot defect: the same deviation is present without any Snapshot.",
 ]
 BUDGET = {"quick": {"examples": 260}, "thorough": {"examples": 15000, "shards": 16}}
 SHRINK_LISTS = ("ops", "meas")
@@ -177,7 +180,15 @@ def _stat_check(spec, mspec, mp, value, nshots, rho, order, feats):
     return p, info
 
 
-def _values_match(spec, got, exp, tol=1e-8):
+def _tol(spec_ops):
+    """1e-8, plus 2e-7 for every damping channel at gamma = 1 among the given operations. Was a flat 1e-8: the thorough tier then
+    reported default.mixed circuits containing AmplitudeDamping/PhaseDamping/GeneralizedAmplitudeDamping(gamma=1.0) with differences of
+    ~2e-8 (also without any Snapshot), which is PennyLane's documented _SQRT_STABILITY_EPS (sqrt(1 - gamma + 1e-14) = 1e-7 in the
+    Kraus matrices), i.e. the channel reference was compared too tightly (same rule as C28), not a snapshot discrepancy."""
+    return 1e-8 + 2e-7 * sum(1 for o in spec_ops if o["op"] in kr.CHANNELS and _sqrt_eps_endpoint(o))
+
+
+def _values_match(spec, got, exp, tol):
     got = np.asarray(to_np(got))
     exp = np.asarray(exp)
     return got.shape == exp.shape and close(got, exp, tol)
@@ -224,6 +235,12 @@ def check(spec):
         (pt,), _ = dev.preprocess()[0]([tape])
         if set(pt.wires) != set(tape.wires):
             raise Reject("device without wires: decomposition dropped a wire")
+        # same precondition for the operator wires: a wire-less device simulates the wires of the *decomposed* operations, so when
+        # the decomposition drops an operator wire (default.mixed: PauliRot(theta, "I", wires=[0]) -> GlobalPhase on no wires) the
+        # snapshot legitimately covers fewer wires than the reference prefix (which applies the undecomposed operators) can express.
+        # The oracle used the undecomposed operator wires and alarmed with a shape mismatch (1, 1) vs (2, 2).
+        if set(w for op in pt.operations for w in op.wires) != set(w for op in tape.operations for w in op.wires):
+            raise Reject("device without wires: decomposition dropped an operator wire")
         order = _standard_order(pt)
     if not isinstance(out, dict):
         raise Viol("result-type", f"qp.snapshots returned {type(out).__name__}", sig="type", features=feats)
@@ -239,25 +256,28 @@ def check(spec):
     # reference prefix states
     snaps = []
     prefix = []
+    prefix_spec = []
     for o, op in zip(spec["ops"], ops):
         if o["op"] == "Snapshot":
-            snaps.append((o, op, list(prefix)))
+            snaps.append((o, op, list(prefix), _tol(prefix_spec)))
         else:
             prefix.append(op)
+            prefix_spec.append(o)
     gate_ops = prefix
+    final_tol = _tol(prefix_spec)
     flagged = []   # (description, recompute(out2) -> p)
     distinct_vals = []
     for tag in dict.fromkeys(tags):
-        group = [(o, op, pre) for (o, op, pre), t in zip(snaps, tags) if t == tag]
+        group = [(o, op, pre, tol) for (o, op, pre, tol), t in zip(snaps, tags) if t == tag]
         got = out[tag]
         cands = []
-        for o, op, pre in group:
+        for o, op, pre, tol in group:
             mp = op.hyperparameters["measurement"]
             st_ = _ref_state(spec, pre, order_s)
             sh = op.hyperparameters["shots"]
             nsh = (shots if sh == "workflow" else (sh.total_shots if sh else None))
             sampled = bool(nsh) and type(mp).__name__ != "StateMP"
-            cands.append((o, mp, st_, nsh if sampled else None))
+            cands.append((o, mp, st_, nsh if sampled else None, tol))
         if len(group) > 1:
             items = got if isinstance(got, list) and len(got) == len(group) else None
         else:
@@ -266,19 +286,19 @@ def check(spec):
         if items is None:
             # duplicates collapsed to a single stored value: must match one of the candidates (exact ones only)
             ok = False
-            for o, mp, st_, nsh in cands:
-                if nsh is None and _values_match(spec, got, _ref_measure(spec, st_, mp, order_s)):
+            for o, mp, st_, nsh, tol in cands:
+                if nsh is None and _values_match(spec, got, _ref_measure(spec, st_, mp, order_s), tol):
                     ok = True
                 if nsh is not None:
                     ok = True  # sampled candidate: cannot be decided exactly, accepted
             if not ok:
                 raise Viol("snapshot-value", f"{what}: stored value matches none of the {len(group)} snapshots with this tag", sig="duplicate-tag:" + spec["dev"], features=feats)
             continue
-        for idx, ((o, mp, st_, nsh), g) in enumerate(zip(cands, items)):
+        for idx, ((o, mp, st_, nsh, tol), g) in enumerate(zip(cands, items)):
             mname = type(mp).__name__
             if nsh is None:
                 exp = _ref_measure(spec, st_, mp, order_s)
-                if not _values_match(spec, g, exp):
+                if not _values_match(spec, g, exp, tol):
                     gg = np.asarray(to_np(g))
                     raise Viol("snapshot-value", f"{what}: snapshot #{idx} measurement {o['m']} got shape {gg.shape} expected {np.shape(exp)} diff="
                                                  f"{maxdiff(gg, np.asarray(exp)) if gg.shape == np.shape(exp) else 'shape'}",
@@ -303,13 +323,13 @@ def check(spec):
                 final_flag.append((j, p, info))
         else:
             exp = _ref_measure(spec, final_state, mp, order)
-            if not _values_match(spec, rs[j], exp):
+            if not _values_match(spec, rs[j], exp, final_tol):
                 gg = np.asarray(to_np(rs[j]))
                 raise Viol("final-result", f"execution_results[{j}] {m} differs from the circuit without snapshots: got shape {gg.shape} expected {np.shape(exp)} "
                                            f"diff={maxdiff(gg, np.asarray(exp)) if gg.shape == np.shape(exp) else 'shape'}; dev={spec['dev']} via={spec['via']} ops={spec['ops']}",
                            sig="final:" + type(mp).__name__ + ":" + spec["dev"], features=feats)
     labels = ["dev:" + spec["dev"], "mode:" + spec["mode"], "via:" + spec["via"], "devw:" + ("given" if dev_wires else "none"), f"snaps:{len(snaps)}"] + \
-             ["snap:" + (o["m"]["mp"] if o["m"] else "default") + ("" if o.get("shots", "workflow") == "workflow" else ":shots-override") for o, _, _ in snaps] + \
+             ["snap:" + (o["m"]["mp"] if o["m"] else "default") + ("" if o.get("shots", "workflow") == "workflow" else ":shots-override") for o, _, _, _ in snaps] + \
              (["dup-tags"] if len(set(tags)) < len(tags) else []) + (["untagged+tagged"] if any(isinstance(t, int) for t in tags) and any(isinstance(t, str) for t in tags) else [])
     if flagged or final_flag:
         # second stage: 4x the shots, fresh seed; snapshot shot overrides cannot be scaled from outside, they are re-sampled at the same size 4 times and pooled
